@@ -186,10 +186,12 @@ def pyfftw_call(array_in, array_out, direction='forward', axes=None,
         # Plan on a scratch array, also if `array_in` is already a copy,
         # since planning overwrites the data that is transformed afterwards
         plan_arr_in = np.empty_like(array_in)
-        flags = [_flag_odl_to_pyfftw(planning_effort), 'FFTW_DESTROY_INPUT']
     else:
         plan_arr_in = array_in
-        flags = [_flag_odl_to_pyfftw(planning_effort)]
+
+    # Do not allow the plan to destroy its input (`FFTW_DESTROY_INPUT`), it
+    # is executed on the caller's array
+    flags = [_flag_odl_to_pyfftw(planning_effort)]
 
     # Multi-dimensional c2r transforms always destroy their input when
     # executed, so they need to run on a copy
